@@ -179,7 +179,7 @@ func lex(src string) ([]tok, error) {
 			for i < len(rs) && rs[i] != '\n' {
 				i++
 			}
-		case unicode.IsLetter(c) || c == '_':
+		case unicode.IsLetter(c) || c == '_' || c == '$':
 			j := i
 			for j < len(rs) && (unicode.IsLetter(rs[j]) || unicode.IsDigit(rs[j]) || rs[j] == '_' || rs[j] == '$') {
 				j++
